@@ -238,6 +238,11 @@ impl Ctx {
             "discarded": st.discarded,
             "classes": st.classes,
             "finished_at_s": (t * 100.0).round() / 100.0,
+            // up to two non-trivial cases of THIS stage (the merged sample list is dominated by the first stages)
+            "samples": st.nt_samples.iter().chain(st.samples.iter()).take(2).map(|v| {
+                let txt = v.to_string();
+                if txt.len() > 1200 { json!(format!("{} ... ({} bytes)", txt.chars().take(1200).collect::<String>(), txt.len())) } else { v.clone() }
+            }).collect::<Vec<_>>(),
         }));
         self.exhaustive_all = Some(self.exhaustive_all.unwrap_or(true) && exhaustive);
         eprintln!(
